@@ -125,16 +125,18 @@ def replay_lines(out):
 
 
 def load_known(pid):
-    """known_findings.jsonl: {"property":..,"status":"known"|"fixed","key":..,"what":..}"""
+    """known_findings.txt lines:
+         known: property=<id> key=<key> <what fails>
+         fixed: property=<id> <commit> <what failed>
+    `known` entries suppress exactly the violation with that key; `fixed` entries suppress nothing."""
     items = []
-    if os.path.exists(KNOWN):
-        for line in open(KNOWN):
+    path = os.path.join(VERIF, "known_findings.txt")
+    if os.path.exists(path):
+        for line in open(path):
             line = line.strip()
-            if not line or line.startswith("#"):
-                continue
-            d = json.loads(line)
-            if d.get("property") == pid:
-                items.append(d)
+            m = re.match(r"known: property=(\S+) key=(\S+) (.*)", line)
+            if m and m.group(1) == pid:
+                items.append({"status": "known", "key": m.group(2), "what": m.group(3)})
     return items
 
 
@@ -200,3 +202,64 @@ class Check:
             return 1
         print("OK property=%s tier=%s wall=%.1fs" % (self.pid, self.tier, wall))
         return 0
+
+
+def validate_trace(module, cfg, trace_path, name, timeout=1800, xmx="8g"):
+    """Trace validation run. Returns dict(accepted, line, record, states, out)."""
+    r = tlc(module, cfg, "trace_" + name, workers=1, timeout=timeout, deque=True,
+            env={"TRACE": trace_path}, java_opts="-Xmx" + xmx)
+    out = r["out"]
+    acc = "Model checking completed. No error has been found" in out
+    line, rec = None, None
+    m = re.search(r'"TRACE-REJECTED at line",\s*(\d+),\s*(.*?)>>\s+FALSE', out, re.S)
+    if m:
+        line = int(m.group(1))
+        rec = re.sub(r"\s+", " ", m.group(2))[:1500]
+    inv = r["violated"]
+    if not acc and line is None and inv is None:
+        sys.stderr.write(out[-3000:])
+        raise ToolError("trace validation run failed (%s): %s" % (name, r["error"] or "no verdict"))
+    return {"accepted": acc, "line": line, "record": rec, "invariant": inv, "states": r["distinct"],
+            "generated": r["generated"], "out": out, "wall": r["wall"], "cmd": r["cmd"], "distinct": r["distinct"]}
+
+
+def validate_runs(module, cfg, runs, name, max_rejections=8, timeout=1800):
+    """runs: list of (meta, [projected events]) - each run starts with a reset event.
+    Validates all runs in one TLC run; on a rejection records it, drops everything up to and including
+    the offending run and continues, so the rest of the log is still examined.
+    Returns (failures, stats) with failures = [dict(run, meta, line_in_run, record, invariant, prefix)]."""
+    failures = []
+    stats = {"states": 0, "generated": 0, "runs_validated": 0, "events": 0, "tlc_runs": 0, "wall": 0.0, "cmd": ""}
+    start = 0
+    wd = workdir("trace_" + name)
+    while start < len(runs) and len(failures) <= max_rejections:
+        path = os.path.join(wd, "trace.ndjson")
+        owner = []
+        with open(path, "w") as f:
+            for ri in range(start, len(runs)):
+                for k, e in enumerate(runs[ri][1]):
+                    f.write(json.dumps(e) + "\n")
+                    owner.append((ri, k))
+        if not owner:
+            break
+        r = validate_trace(module, cfg, path, name, timeout=timeout)
+        stats["tlc_runs"] += 1
+        stats["states"] += r["states"]
+        stats["generated"] += r["generated"]
+        stats["wall"] += r["wall"]
+        stats["cmd"] = r["cmd"]
+        if r["accepted"]:
+            stats["runs_validated"] += len(runs) - start
+            stats["events"] += len(owner)
+            break
+        line = r["line"] if r["line"] is not None else r["states"]
+        line = max(1, min(line, len(owner)))
+        ri, k = owner[line - 1]
+        failures.append({"run": ri, "meta": runs[ri][0], "line_in_run": k, "record": r["record"],
+                         "event": runs[ri][1][k], "invariant": r["invariant"],
+                         "prefix": runs[ri][1][max(0, k - 12):k + 1]})
+        stats["runs_validated"] += ri - start
+        stats["events"] += line
+        start = ri + 1
+    shutil.rmtree(wd, ignore_errors=True)
+    return failures, stats
